@@ -361,7 +361,9 @@ def occurs(t, pred) -> bool:
 
 
 def subterms(t):
-    yield t
+    """All sub-terms (tuples whose head is a kind string), polynomial atoms included."""
+    if isinstance(t, tuple) and t and isinstance(t[0], str):
+        yield t
     if isinstance(t, tuple):
         for x in t:
             if isinstance(x, tuple):
